@@ -1,4 +1,8 @@
 import Peppi.Props.C12
+#print axioms Peppi.Props.C12.C12_final
+#print axioms Peppi.Props.C12.eventLoop_extends
+#print axioms Peppi.Props.C12.parseEvent_extends
+#print axioms Peppi.Props.C12.handleEvent_extends
 #print axioms Peppi.Props.C12.parseEvent_count
 #print axioms Peppi.Props.C12.handleEvent_ids
 #print axioms Peppi.Props.C12.readExactS_flat
